@@ -29,7 +29,7 @@ ASSUMPTIONS = [
 
 HT_NAME = {0: "DEFAULT", 1: "ALL", 2: "NONE", 3: "SINGLE", 0x81: "ALL|ACP", 0x82: "NONE|ACP", 0x83: "SINGLE|ACP"}
 KINDS = ["p2pkh", "p2sh-ms", "p2wpkh", "p2sh-p2wpkh", "p2wsh", "p2sh-p2wsh", "p2tr-key", "p2tr-key-annex", "p2tr-script", "p2tr-script-annex"]
-EDITS = ["out-amount", "out-script", "add-out", "remove-out", "in-sequence", "in-prevout", "add-in", "remove-in", "locktime", "version", "annex-toggle", "spent-amount"]
+EDITS = ["out-amount", "out-script", "add-out", "remove-out", "in-sequence", "in-prevout", "add-in", "remove-in", "locktime", "version", "annex-toggle", "spent-amount", "leaf-swap-in-place"]
 
 GATES = {
     "contracts-ran": ["Tx.sig_hash_legacy", "Tx.sig_hash_bip143", "Tx.sig_hash_bip341", "Tx.sig_hash"],
@@ -39,6 +39,7 @@ GATES = {
     "dispatch-kinds": ["q:dispatch:" + k for k in KINDS],
     "query-after-edit": ["edit-then-query:" + e for e in EDITS],
     "repeat-query": ["history:query-repeated-after-edit"],
+    "verify-as-observer": ["history:verify-between-digests"],
 }
 
 
@@ -411,6 +412,20 @@ def do_edit(ctx, rng, tx, spent, extras, edit):
         else:
             items.append(b"\x50" + rng.randbytes(rng.choice([0, 5, 40])))
         tx.tx_ins[k].witness = Witness(items)
+    elif edit == "leaf-swap-in-place":
+        # the script-path leaf (script, control block) replaced inside the SAME Witness object
+        cands = [k for k, e in enumerate(extras) if "script" in e["kind"]]
+        if not cands:
+            return False
+        k = rng.choice(cands)
+        items = tx.tx_ins[k].witness.items
+        has_annex = sh.annex_of([bytes(x) for x in items]) is not None
+        new_script = tc.script_bytes([ec.b32(ec.mul(rng.randrange(1, ec.N))[0]), 0xAC])
+        new_cb = bytes([0xC0 | rng.getrandbits(1)]) + ec.b32(ec.mul(rng.randrange(1, ec.N))[0]) + rng.randbytes(32)
+        if has_annex:
+            items[-3:-1] = [new_script, new_cb]
+        else:
+            items[-2:] = [new_script, new_cb]
     elif edit == "spent-amount":
         k = rng.randrange(len(tx.tx_ins))
         tx.tx_ins[k]._value = (tx.tx_ins[k]._value + 1) % 2**63
@@ -466,6 +481,20 @@ def run_history(ctx, rng, plan_alg=None, plan_ht=None, plan_edit=None, kinds=Non
         if alg != "legacy" and idx >= len(tx.tx_ins):
             continue
         do_query(ctx, tx, extras, alg, idx, ht)
+        if idx < len(tx.tx_ins) and (s + idx) % 3 == 0 and ctx.classes.get("history:verify-between-digests", 0) < (30 if ctx.tier == "quick" else 600):
+            # "digest, verify, digest" on one object: verification is an observer - it must leave the transaction
+            # (and therefore every later digest) exactly as it was
+            with contracts.suspended():
+                before = (model_of_tx(tx), [(i._value, script_raw_from_fields(i._script_pubkey)) for i in tx.tx_ins])
+            outcome(tx.verify_input, idx)
+            with contracts.suspended():
+                after = (model_of_tx(tx), [(i._value, script_raw_from_fields(i._script_pubkey)) for i in tx.tx_ins])
+            ctx.count("history:verify-between-digests")
+            ctx.monitor("verify-is-observer")
+            if before != after:
+                ctx.violation("verify-input-edits-the-transaction", f"fields differ after verify_input({idx}); steps {steps}",
+                              {"op": "history", "steps": steps, "model": before[0], "spent": spent})
+            do_query(ctx, tx, extras, alg, idx, ht)
         if last_edit:
             ctx.count("edit-then-query:" + last_edit)
             last_edit = None
@@ -515,7 +544,7 @@ def run_shard(desc, ctx):
         if k % desc["n"] == idx % desc["n"] or ctx.tier == "thorough":
             kinds = {"legacy": ["p2pkh", "p2sh-ms"], "bip143": ["p2wpkh", "p2wsh", "p2sh-p2wpkh", "p2sh-p2wsh"], "bip341": ["p2tr-key", "p2tr-script-annex", "p2tr-key-annex", "p2tr-script"], "dispatch": None}[a]
             for e in EDITS[(k + idx) % 3 :: 3]:
-                run_history(ctx, rng, a, h, e, kinds)
+                run_history(ctx, rng, a, h, e, kinds if e != "leaf-swap-in-place" else ["p2tr-script", "p2tr-script-annex"])
     for k, kind in enumerate(KINDS):
         run_history(ctx, rng, "dispatch", None, EDITS[(k + idx) % len(EDITS)], [kind])
     for _ in range(desc["count"]):
